@@ -47,6 +47,7 @@ type Exec struct {
 	curCallArgs  []ssa.Value // SSA arguments of the call whose contract is being applied
 	curCallFrame *Frame
 	curFree      map[string]Val
+	aliases      map[string]Val   // locals named by role (alias clauses), bound at the call that defines them
 	csMatched    map[*Clause]bool // call-site clauses that applied to at least one site
 	localObjs    []localObj // objects allocated by the frames being executed, with their types
 	freshMutexes []string // mutexes of objects this function allocated (free on allocation)
